@@ -7,9 +7,10 @@ CONSTANTS
   PolA = "any"
   PolQ = "any"
   PolW = "any"
+  FormOf <- FormsOAU
   MwEnabled = TRUE
   Variant = "asWritten"
   KeepRecords = TRUE
-INVARIANTS TypeOK Ownership HandlerSeesOwn LoggerOwn FinishedCode ClientExact RecordsOwn OncePerRequest
+INVARIANTS TypeOK FreshAfterReset Ownership HandlerSeesOwn LoggerOwn FinishedCode ClientExact RecordsOwn OncePerRequest
 VIEW View
 CHECK_DEADLOCK FALSE
